@@ -341,8 +341,57 @@ def risky(ver, t, v):
     return misparse_prone(ver, t, v) and anyt(lambda x: x[0] in ("Q", "A") and may_be_empty(x[-1]), t)
 
 
+def phase_cases(r):
+    """Primitive collections at every alignment phase: a sequence (empty / non-empty) or a zero-length
+    array of every primitive kind, preceded by 0..7 one-byte members and followed by a member of varying
+    width, XCDR1/XCDR2, LE/BE; for the 8-byte and 16-byte kinds also nested, appendable and mutable.
+    (rule (11) applies rule (2) -- the only ALIGN -- once per ELEMENT: an empty sequence has no padding)"""
+    out = []
+    big = ["u64", "i64", "f64", "f128"]
+    followers = ["u8", "u16", "u32", "u64"]
+    encs = [(1, "le"), (1, "be"), (2, "le"), (2, "be")]
+    k = 0
+    for p in PRIMS:
+        for phase in range(8):
+            for kind in ("empty", "some", "arr0"):
+                if kind == "arr0" and p not in big:
+                    continue
+                pre = [(i, 0, ("p", "u8")) for i in range(phase)]
+                ct = ("A", 0, ("p", p)) if kind == "arr0" else ("Q", ("p", p))
+                fol = followers[(phase + k) % 4]
+                k += 1
+                t = ("S", "F", pre + [(10, 0, ct), (11, 0, ("p", fol))])
+                sk = PRIM_SK[p]
+                n = 0 if kind != "some" else r.choice([1, 2, 3])
+                d = [(i, ("p", "u8", r.randint(1, 255))) for i in range(phase)]
+                d += [(10, ("q", sk, [rprim(r, sk, True) for _ in range(n)])), (11, ("p", fol, rprim(r, fol)))]
+                v = ("d", d)
+                if p in big:
+                    sel = encs if kind != "arr0" else encs[:2]
+                else:
+                    sel = [encs[(phase + k) % 4], encs[(phase + k + 2) % 4]]
+                for ver, end in sel:
+                    out.append(("rt", ver, end, t, v))
+    # nested / appendable / mutable carriers of an empty sequence of a wide primitive
+    for p in big:
+        sk = PRIM_SK[p]
+        for phase in (0, 2, 4, 6):
+            pre = [(i, 0, ("p", "u8")) for i in range(phase)]
+            dpre = [(i, ("p", "u8", 7)) for i in range(phase)]
+            inner_ms = pre + [(10, 0, ("Q", ("p", p))), (11, 0, ("p", "u32"))]
+            inner_v = ("d", dpre + [(10, ("q", sk, [])), (11, ("p", "u32", 42))])
+            for ext in ("F", "A", "M"):
+                inner = ("S", ext, inner_ms)
+                outer = ("S", "F", [(0, 0, ("p", "u32")), (1, 0, inner), (2, 0, ("p", "u16"))])
+                ov = ("d", [(0, ("p", "u32", 1)), (1, inner_v), (2, ("p", "u16", 2))])
+                for ver, end in ((1, "le"), (1, "be"), (2, "le")):
+                    out.append(("rt", ver, end, inner, inner_v))
+                    out.append(("rt", ver, end, outer, ov))
+    return out
+
+
 def gen(r, tier):
-    n = {"quick": 2200, "search": 9000, "thorough": 12000}[tier]
+    n = {"quick": 3300, "search": 9000, "thorough": 12000}[tier]
     cases = []
     # systematic part: every primitive after every misaligning prefix, all four encodings
     for p in PRIMS:
@@ -352,6 +401,7 @@ def gen(r, tier):
                 for end in ("le", "be"):
                     v = gen_value(r, t)
                     cases.append(("rt", ver, end, t, v))
+    cases += phase_cases(r)
     while len(cases) < n:
         k = r.random()
         stage = 1 if k < 0.55 else 2 if k < 0.82 else 3
@@ -403,6 +453,10 @@ def corpus():
     out.append(("rt", 1, "le", S("M", [(0, 0, P("u64"))]), ("d", [(0, pv("u64", 9))])))
     out.append(("rt", 2, "le", S("F", [(0, 0, S("M", [(0, 0, P("i32"))])), (1, 0, P("i32"))]),
                 ("d", [(0, ("d", [(0, pv("i32", 5))])), (1, pv("i32", 77))])))
+    # empty sequence of an 8-byte primitive whose length ends at 4 mod 8 (XCDR1): no padding after the length
+    out.append(("rt", 1, "le", S("F", [(0, 0, ("Q", P("f64"))), (1, 0, P("u32"))]), ("d", [(0, ("q", "f64", [])), (1, pv("u32", 42))])))
+    out.append(("rt", 1, "be", S("F", [(0, 0, P("u64")), (1, 0, S("F", [(0, 0, ("Q", P("u64"))), (1, 0, P("u32"))]))]),
+                ("d", [(0, pv("u64", 1)), (1, ("d", [(0, ("q", "u64", [])), (1, pv("u32", 42))]))])))
     # the unit-test shapes of serializer.rs
     out.append(("rt", 2, "be", S("F", [(0, 0, P("u16")), (1, 0, P("u64")), (2, 0, P("u32"))]),
                 ("d", [(0, pv("u16", 7)), (1, pv("u64", 9)), (2, pv("u32", 10))])))
